@@ -17,7 +17,10 @@ def gen_case(r, idx, tmpdir):
     tree = simgen.gen_tree(r, cfg, ctr, present=present, maxfan=3)
     kind = r.choice(["plain", "again", "again", "shrunk", "restart"])
     case = {"idx": idx, "kind": kind, "cfg": cfg, "trees": [tree], "changes": [], "final": 0, "dir": os.path.join(tmpdir, "c%d" % idx),
-            "featmode": r.below(3), "truth": simgen.truth_of(tree, cfg)}
+            "featmode": r.below(3), "truth": simgen.truth_of(tree, cfg),
+            # on every fourth bus the track outputs answer MSG_CS_SET_STATE with "off" (the tracked output state stays off);
+            # whether a connected track output gets the initial train functions does not depend on what it reported
+            "mutecs": r.chance(1, 4)}
     if kind in ("shrunk", "restart"):
         t2 = copy.deepcopy(tree)
         for _ in range(r.range(1, 2)):
@@ -42,7 +45,7 @@ def gen_case(r, idx, tmpdir):
 def script_of(case):
     L = ["case %d" % case["idx"], "sim_reset"] + simgen.cfg_lines(case["cfg"])
     for ti, t in enumerate(case["trees"]): L += simgen.node_lines(t, ti)
-    L += ["sim_opt featmode %d" % case["featmode"], "simstart 0 %s 0" % case["dir"], "mark dump0", "sim_dump"]
+    L += ["sim_opt featmode %d" % case["featmode"]] + (["sim_opt csoff 1"] if case.get("mutecs") else []) + ["simstart 0 %s 0" % case["dir"], "mark dump0", "sim_dump"]
     for k, (_, _, cmd) in enumerate(case["hl"]): L += ["mark hl%d" % k, cmd]
     if case["kind"] == "restart":
         L += ["mark pend"] + ([case["pending"]] if case["pending"] else []) + ["stop", "sim_tree 1", "mark start2", "simstart 0 %s 0" % case["dir"], "mark dump2", "sim_dump"]
